@@ -125,7 +125,8 @@ impl Cache for MemoryStore {
                     }
                 }
                 None => {
-                    record.header.cas += 1;
+                    // never overflows and never yields 0 (0 means "no CAS")
+                    record.header.cas = record.header.cas.wrapping_add(1).max(1);
                     record.header.timestamp = self.timer.timestamp();
                     let cas = record.header.cas;
                     self.memory.insert(key, record);
